@@ -35,6 +35,8 @@ def check(ctx: Ctx) -> None:
     # finds nothing to move, its end callback never begins and the map slot it held is never returned (shared with C11)
     from . import naming as N
     N.r_id_discipline(ctx, "R05.11")
+    # the map slot comes back through the wrapped end callback, an `async def` run by execute_optional: it must be awaited there
+    S.r_execute_optional(ctx, "R05.12")
 
 
 def r_star_table(ctx: Ctx, rule: str) -> None:
